@@ -129,6 +129,8 @@ type CaseOpts struct {
 	Registry bool
 	Ex       Exclusions
 	Setup    func(w *HWorld)
+	Wire     bool // run on driver W (real websocket.Handle over net.Pipe)
+	WOpts    WOpts
 }
 
 // RunH executes a script on driver H inside a fresh synctest bubble.
@@ -143,9 +145,15 @@ func RunH(t *testing.T, sc Script, o CaseOpts) (ex *Exec) {
 	}()
 	noteCurrent(sc)
 	synctest.Test(t, func(t *testing.T) {
-		w := NewHWorld(sc.Cfg)
-		if o.Setup != nil {
-			o.Setup(w)
+		var w Driver
+		if o.Wire {
+			w = NewWWorld(sc.Cfg, o.WOpts)
+		} else {
+			hw := NewHWorld(sc.Cfg)
+			if o.Setup != nil {
+				o.Setup(hw)
+			}
+			w = hw
 		}
 		ex = NewExec(w, sc.Cfg)
 		ex.Ex = o.Ex
@@ -205,6 +213,7 @@ type ModelCheck struct {
 	Rule     string
 	NT       func(e *Exec, sc Script) bool
 	Registry bool
+	Wire     bool
 	Mutate   func(sc *Script) // deterministic post-processing of the drawn script
 }
 
@@ -222,7 +231,7 @@ func violationsFor(ex *Exec, prop string) (mine []Violation, foreign []Violation
 func (mc ModelCheck) Run(t *testing.T) {
 	col := NewCollector(mc.Prop, mc.Part, mc.Rule)
 	t.Cleanup(col.Write)
-	opts := CaseOpts{Registry: mc.Registry, Ex: exclusionsFromFindings()}
+	opts := CaseOpts{Registry: mc.Registry, Ex: exclusionsFromFindings(), Wire: mc.Wire}
 	if rp := os.Getenv("VERIF_REPLAY"); rp != "" {
 		sc, err := loadReplay(rp)
 		if err != nil {
